@@ -5,7 +5,7 @@ occurrence outside DUP(...), per RzILOpEffect variable exactly one occurrence, p
 parameter at most one un-DUPed occurrence, nothing initialised and never used."""
 import collections
 
-from .. import common, outfamily, pipeline
+from .. import common, findings, outfamily, pipeline
 
 
 def main(tier):
@@ -26,7 +26,9 @@ def main(tier):
             continue
         texts.add(it["rzil"])
         variables += r["decls"]
-        if r["ownership"]:
+        if r["ownership"] and findings.output_signature(it["src"], r["ownership"]) and run.known("dead_arm_operand", {"source": it["src"], "problems": r["ownership"][:2]}):
+            bad += 1
+        elif r["ownership"]:
             bad += 1
             for pr in r["ownership"][:3]:
                 kind = " ".join(pr.split()[:1] + pr.split()[2:5])
